@@ -80,6 +80,7 @@ pub fn worker(ctx: &Ctx, res: &mut ShardResult) {
     for (li, z) in zoo.iter().enumerate() {
         let info = build_info(z);
         let atoms = insert_atoms(z);
+        let pair_atoms: Vec<Vec<u8>> = { let mut v = vec![]; for a in z.lexemes.iter() { for b in z.lexemes.iter() { let mut x = a.as_bytes().to_vec(); x.extend_from_slice(b.as_bytes()); v.push(x); } } v.sort(); v.dedup(); v };
         let mut scratch = ScratchCache::new();
         let docs = crate::docs::docs(z, k);
         let nseeds = z.seeds.len();
@@ -91,6 +92,12 @@ pub fn worker(ctx: &Ctx, res: &mut ShardResult) {
             let cfg = HistCfg { oracle: oracle_of(&ctx.id), depth: depth + extra, chunks: vec![0, 1, 2, 3, 7], insert_atoms: atoms.clone(), max_states_per_doc: 200_000 };
             hist::explore_doc(ctx, &info, d, &cfg, res, &mut scratch);
             res.count(&format!("docs_{}", z.name), 1);
+            // seeds also get every insertion of TWO lexemes at once (one level deep, whole-buffer reads): an operator with
+            // its operand, an opening with its closing token, ... - edits that turn one valid document into another
+            if di < nseeds && !ctx.mini() && d.len() <= 40 {
+                let cfg2 = HistCfg { oracle: oracle_of(&ctx.id), depth: 1, chunks: vec![0], insert_atoms: pair_atoms.clone(), max_states_per_doc: 200_000 };
+                hist::explore_doc(ctx, &info, d, &cfg2, res, &mut scratch);
+            }
             if ctx.out_of_time() || res.too_many() { return; }
         }
         // included-range transitions: parse(d, R1) -> [edit] -> parse(d', R2, old tree)
